@@ -31,6 +31,7 @@ def classify(text):
                         ('holds the claim', 'holder-missed-out-event'),
                         ('more than one client', 'out-event-delivered-twice'),
                         ('idle client', 'out-event-to-idle-client'),
+                        ('after its release call had returned', 'out-event-after-release-returned'),
                         ('before the dispatcher ran it', 'call-returned-before-dispatch'),
                         ('lost update', 'mutexwrapped-lost-update'),
                         ('two threads inside', 'mutexwrapped-not-exclusive')):
